@@ -10,7 +10,8 @@
 // Scenario: {"id":..,"target":"writer|exporter","comp":"none|gz|xz","kind":"file|fd",
 //            "chunks":[{"id":1,"n":bytes,"pat":"zero|text|rand","seed":s}],
 //            "steps":[{"op":"w","c":chunk id}|{"op":"rec","n":k}|{"op":"wb"}|{"op":"rot","export":b[,"to":name index]}],
-//            "pre":[output index whose final name exists before]}
+//            "pre":[output index whose final name exists before],
+//            "prepart":[name index whose '.part' file exists before (left by a run that died)]}
 #include "common.h"
 #include "records.h"
 #include <dirent.h>
@@ -74,7 +75,19 @@ static bool before_call(const char* path) {
     return fail;
 }
 
+// Under AddressSanitizer its own interceptor of write() would check that [buf, buf+n) is addressable; this definition
+// replaces that interceptor, so the check is made here (a compressor that was offered more room than its scratch
+// buffer has makes the writer hand over bytes from beyond the array).
+extern "C" void* __asan_region_is_poisoned(void* beg, size_t size) __attribute__((weak));
+static void check_region(const void* buf, size_t n) {
+    if (&__asan_region_is_poisoned && n > 0 && __asan_region_is_poisoned(const_cast<void*>(buf), n)) {
+        static const char msg[] = "wr_driver: write() was handed a buffer that reaches into poisoned (out-of-bounds) memory\n";
+        syscall(SYS_write, 2, msg, sizeof(msg) - 1);
+        abort();
+    }
+}
 extern "C" ssize_t write(int fd, const void* buf, size_t n) {
+    check_region(buf, n);
     char path[512];
     if (!g_hooks || !tracked_fd(fd, path, sizeof(path))) return syscall(SYS_write, fd, buf, n);
     bool fail = before_call(path);
@@ -96,7 +109,7 @@ extern "C" ssize_t writev(int fd, const struct iovec* iov, int cnt) {
     char path[512];
     if (!g_hooks || !tracked_fd(fd, path, sizeof(path))) return syscall(SYS_writev, fd, iov, cnt);
     long total = 0;
-    for (int i = 0; i < cnt; i++) total += iov[i].iov_len;
+    for (int i = 0; i < cnt; i++) { total += iov[i].iov_len; check_region(iov[i].iov_base, iov[i].iov_len); }
     bool fail = before_call(path);
     if (fail) {
         if (g_fault_kind == 2 && cnt > 0 && iov[0].iov_len > 1) {
@@ -251,6 +264,13 @@ struct Runner {
     }
 };
 
+// content of the files that exist before a scenario starts; "old" = the file still holds exactly that
+static std::string pre_content(int idx) { return "PRE-EXISTING-CONTENT-" + std::to_string(idx); }
+static std::string stale_content(int idx) { return "STALE-PART-CONTENT-" + std::string(3000, 'x') + std::to_string(idx); }
+static bool is_old_content(const std::string& name, const std::string& content) {
+    int idx = name.size() > 1 ? atoi(name.c_str() + 1) : 0;
+    return content == pre_content(idx) || content == stale_content(idx);
+}
 static void rm_rf(const std::string& d) { std::string c = "rm -rf '" + d + "'"; if (system(c.c_str())) {} }
 
 static long g_child_limit_ms = 120000;     // per child; after the reference run: 30 x its duration, at least 5 s
@@ -265,7 +285,12 @@ static ChildResult run_child(const json& sc, const std::string& dir, int crash_a
     std::string comp = sc.value("comp", "none"), kind = sc.value("kind", "file");
     if (sc.contains("pre")) for (auto& o : sc["pre"]) {
         std::string p = dir + "/o" + std::to_string(o.get<int>()) + (kind == "file" ? suffix(comp) : ".fd");
-        std::ofstream f(p); f << "PRE-EXISTING-CONTENT-" << o.get<int>();
+        std::ofstream f(p); f << pre_content(o.get<int>());
+    }
+    // '.part' files left behind by an earlier run that died while producing the same names
+    if (sc.contains("prepart")) for (auto& o : sc["prepart"]) {
+        std::string p = dir + "/o" + std::to_string(o.get<int>()) + suffix(comp) + ".part";
+        std::ofstream f(p); f << stale_content(o.get<int>());
     }
     std::string sl = dir + ".sys", al = dir + ".api";
     pid_t pid = fork();
@@ -331,7 +356,7 @@ static json describe_outputs(const std::map<std::string, std::string>& snap, con
     for (auto& kv : snap) {
         json o = {{"name", kv.first}, {"final", is_final(kv.first)}, {"size", kv.second.size()},
                   {"o", kv.first.size() > 1 ? atoi(kv.first.c_str() + 1) : 0}};
-        bool pre = kv.second.rfind("PRE-EXISTING-CONTENT-", 0) == 0;
+        bool pre = is_old_content(kv.first, kv.second);
         o["old"] = pre;
         if (is_final(kv.first) && !pre) {
             bool ok = true;
@@ -392,7 +417,7 @@ static void do_scenario(const std::string& mode, const json& sc)
             auto snap = snapshot(dir);
             json files = json::array();
             for (auto& kv : snap) {
-                bool pre = kv.second.rfind("PRE-EXISTING-CONTENT-", 0) == 0;
+                bool pre = is_old_content(kv.first, kv.second);
                 auto it = refsnap.find(kv.first);
                 files.push_back({{"name", kv.first}, {"final", is_final(kv.first)}, {"old", pre}, {"size", kv.second.size()},
                                  {"same", it != refsnap.end() && it->second == kv.second}, {"h", content_hash(kv.second)}});
